@@ -191,12 +191,13 @@ PROPS = {
         impl_timeout=120,
     ),
     "C03": dict(
-        proof_modules=["KsVerif.Proofs.C03", "KsVerif.Proofs.C03Server"],
+        proof_modules=["KsVerif.Proofs.C03", "KsVerif.Proofs.C03Server", "KsVerif.Proofs.C03Trailer"],
         families=["http.conv", "http.entry", "http.h2c", "http.trailer"],
         rule="http.trailer: chunked HTTP/1.1 requests / responses whose last chunk is followed by trailer fields (announced by a "
              "Trailer header or not, one or several, repeating a header name, empty values, bodies of 0 / 3 / 9000 bytes, further "
-             "exchanges behind them): reported exactly as the same conversation with those fields sent in the header block "
-             "(metamorphic: the wire model has no trailer part), and every trailer field is among the reported header fields; "
+             "exchanges behind them): three ways - the dissector against the wire model on the same bytes (the model reads the trailer "
+             "part and adds its fields to the header fields), both against the same conversation with those fields sent in the header "
+             "block, and every trailer field among the reported header fields; "
              "http.entry: what Analyze derives after the JSON round trips - path, query parameters (repeated keys, empty values, "
              "keys without '=', percent-escapes, '+'), method, status - for fixed targets and the http.conv conversations; "
              "http.conv: HTTP/1.0 and 1.1 conversations of 1-4 pipelined exchanges from an independent encoder (cross-checked "
